@@ -185,8 +185,8 @@ func (c *Ctx) Nontrivial(key string) {
 	c.mu.Unlock()
 }
 
-func (c *Ctx) Rule(s string)               { c.rule = s }
-func (c *Ctx) Assume(s ...string)          { c.mu.Lock(); c.assume = append(c.assume, s...); c.mu.Unlock() }
+func (c *Ctx) Rule(s string)      { c.rule = s }
+func (c *Ctx) Assume(s ...string) { c.mu.Lock(); c.assume = append(c.assume, s...); c.mu.Unlock() }
 func (c *Ctx) Set(k string, v interface{}) {
 	c.mu.Lock()
 	if v == nil {
